@@ -385,4 +385,12 @@ def _c06r8(ctx):
     return rule_r8(ctx)
 
 
-RULES = [("C06-R8", _c06r8), ("C08-R1", rule_r1), ("C08-R2", rule_r2), ("C08-R3", rule_r3), ("C08-R4", rule_r4), ("C08-R5", rule_r5)]
+def _c06r1(ctx):
+    """A child expression that the generic copier does not hand to the driver is never looked at by
+    the dispatch that rejects yield/await: the routing rule C06-R1 is a clause of C08 as well."""
+    from .c06 import rule_r1 as r
+
+    return r(ctx)
+
+
+RULES = [("C06-R8", _c06r8), ("C06-R1", _c06r1), ("C08-R1", rule_r1), ("C08-R2", rule_r2), ("C08-R3", rule_r3), ("C08-R4", rule_r4), ("C08-R5", rule_r5)]
